@@ -1,52 +1,110 @@
-CLAIM = "wip"
-ASSUMPTIONS = []
+CLAIM = ("-lh1-: (a) adaptive tree, on scaled instances of the real source (NUM_CODES 3/4/6 through the LHASA_VERIF hook): the real init equals LZHUF "
+         "StartHuff; from an ARBITRARY tree/group state satisfying an explicit invariant one increment_for_code equals one LZHUF update() node-for-node "
+         "(freq/son/prnt under node i <-> R-i) and re-establishes the invariant (inductive, so streams of any length); the rebuild is invoked exactly "
+         "at freq[R] == MAX_FREQ and reconstruct_tree equals LZHUF reconst() from any such state; read_code's walk equals DecodeChar's. "
+         "(b) real constants: init_offset_table/read_offset equal LZHUF DecodePosition over d_code/d_len generated from the published length "
+         "distribution, for every peeked byte, every low six bits, every alignment and truncation; one lha_lh1_read command from an arbitrary 4 KiB "
+         "window equals LZHUF's literal/copy semantics (quick tier: copy lengths 3..12 symbolic, thorough: 3..60); the unscaled build uses 314/627/32768/4096/3.")
+ASSUMPTIONS = ["tree maintenance is decided on scaled instances (NUM_CODES 3, 4, 6; small limit) of the same source text, not at 314 symbols; "
+               "a defect that only shows through the numeric values 314/627/32768 is outside the claim (memory safety of those: C09)",
+               "bit reader replaced by its specification (bits of a byte string, MSB first, failure when fewer bits remain): refinement is C01 bits.*",
+               "initial window content (4096 spaces) is lhasa's choice; LZHUF addresses the window relatively, so the absolute start position is immaterial"]
 RT = {"lib/lh1_decoder.c": ["reconstruct_tree"]}
 BITS = {"lib/bit_stream_reader.c": ["peek_bits", "read_bits", "read_bit"]}
+BITSPEC = "peek_bits/read_bits/read_bit: specification stub over a symbolic byte string with cursor (BITS_SPEC; refinement shown by C01 bits.*)"
+TREE_UNITS = "lib/lh1_decoder.c:increment_for_code,make_group_leader,increment_node_freq,alloc_group,free_group"
+PARTNAME = {1: "lock-step with LZHUF", 2: "tree/count/leaf-map consistency", 4: "group consistency", 8: "free-group list",
+            14: "all consistency clauses", 15: "all clauses"}
 
 
 def sc(n, lim):
     return ["LHASA_VERIF_LH1_NUM_CODES=%d" % n, "LHASA_VERIF_LH1_REORDER_LIMIT=%d" % lim]
 
 
+def upd_unwind(n):
+    return {"increment_for_code.0": n, "lz_update.1": n + 1}
+
+
+def rb_unwind(n):
+    d = {"reconstruct_tree.1": 3, "reconstruct_tree.2": n, "reconstruct_tree.3": n, "lz_reconst.1": n + 1, "lz_reconst.2": n + 1, "lz_reconst.3": n}
+    d.update(upd_unwind(n))
+    return d
+
+
+def step(n, s, tier, timeout):
+    return dict(name="step.n%d.s%d" % (n, s), src="C02/step.c", defines=sc(n, 64) + ["STEPS=%d" % s], rename_defs=RT, unwind=2 * n + 1,
+                unwindset=upd_unwind(n), timeout=timeout, tier=tier, units=[TREE_UNITS + ",init_groups,init_tree"],
+                bounds="NUM_CODES=%d (scaled): real init, then %d symbolic symbols; tree compared node-for-node with LZHUF StartHuff/update after every step" % (n, s),
+                stubs=["reconstruct_tree: asserts it is not called (root count = %d..%d < limit 64); the rebuild is rebuild.*" % (n, n + s)])
+
+
+def inv(n, lim, parts, tier, timeout, tag=""):
+    return dict(name="inv.n%d%s.p%d" % (n, tag, parts), src="C02/inv.c", entry="harness_inv", defines=sc(n, lim) + ["PARTS=%d" % parts], rename_defs=RT,
+                unwind=2 * n + 1, unwindset=upd_unwind(n), timeout=timeout, tier=tier, units=[TREE_UNITS],
+                bounds="NUM_CODES=%d (scaled), limit %d: ARBITRARY invariant-satisfying tree/group state with root count < limit, arbitrary symbol, one update; "
+                       "asserted here: %s" % (n, lim, PARTNAME[parts]),
+                stubs=["reconstruct_tree: recording stub, asserted not to be called below the limit (threshold.*, rebuild.*)"])
+
+
+def rebuild(n, lim, parts, tier, timeout):
+    return dict(name="rebuild.n%d.p%d" % (n, parts), src="C02/rebuild.c", entry="harness_rebuild", defines=sc(n, lim) + ["PARTS=%d" % parts],
+                unwind=2 * n + 1, unwindset=rb_unwind(n), timeout=timeout, tier=tier, mem_gb=4, units=["lib/lh1_decoder.c:reconstruct_tree,init_groups,alloc_group"],
+                bounds="NUM_CODES=%d (scaled), limit %d: ARBITRARY invariant-satisfying state with root count == limit, one reconstruct_tree vs LZHUF reconst(); "
+                       "asserted here: %s" % (n, lim, PARTNAME[parts]))
+
+
 HARNESSES = [
-    dict(name="step.n%d.s%d" % (n, s), src="C02/step.c", defines=sc(n, 64) + ["STEPS=%d" % s], rename_defs=RT, unwind=2 * n + 1,
-         timeout=300, tier=tier)
-    for n, s, tier in [(3, 3, "both"), (4, 3, "both"), (6, 3, "both")]
-] + [
-    dict(name="inv.n%d" % n, src="C02/inv.c", entry="harness_inv", defines=sc(n, 32768), rename_defs=RT, unwind=2 * n + 1,
-         timeout=300, tier=tier)
-    for n, tier in [(3, "both"), (4, "both"), (6, "both")]
-] + [
-    dict(name="x.inv4.%s.p%d" % (tag, parts), src="C02/inv.c", entry="harness_inv", defines=sc(4, lim) + ["PARTS=%d" % parts], rename_defs=RT, unwind=9, timeout=240)
-    for tag, lim in [("l16", 16), ("real", 32768)] for parts in (1, 2, 4, 8)
-] + [
-    dict(name="threshold.n%d" % n, src="C02/inv.c", entry="harness_threshold", defines=sc(n, 32768), rename_defs=RT, unwind=2 * n + 1,
-         timeout=300, tier=tier)
-    for n, tier in [(4, "both")]
-] + [
-    dict(name="walk.n%d" % n, src="C02/inv.c", entry="harness_walk", defines=sc(n, 32768) + ["WALK_HARNESS", "BITS_SPEC"],
-         rename_defs=dict(BITS, **{"lib/lh1_decoder.c": ["increment_for_code"]}), unwind=2 * n + 1,
-         timeout=300, tier=tier)
-    for n, tier in [(4, "both"), (6, "both")]
-] + [
-    dict(name="rebuild.n%d.p%d" % (n, parts), src="C02/rebuild.c", entry="harness_rebuild", defines=sc(n, lim) + ["PARTS=%d" % parts], unwind=2 * n + 1,
-         unwindset={"reconstruct_tree.1": n + 1, "reconstruct_tree.2": n + 1, "reconstruct_tree.3": n + 1, "lz_reconst.3": n + 1},
-         timeout=300, tier=tier)
-    for n, lim, tier in [(3, 16, "both"), (4, 32, "both"), (6, 64, "both")] for parts in (1, 14)
-] + [
-    dict(name="rebuild_step.n%d" % n, src="C02/rebuild.c", entry="harness_rebuild_step", defines=sc(n, lim), unwind=2 * n + 1,
-         unwindset={"reconstruct_tree.1": n + 1, "reconstruct_tree.2": n + 1, "reconstruct_tree.3": n + 1, "lz_reconst.3": n + 1},
-         timeout=300, tier=tier)
-    for n, lim, tier in [(3, 16, "both"), (4, 32, "both")]
-] + [
+    # 1. H02.step
+    step(3, 3, "both", 120), step(4, 3, "both", 200), step(6, 3, "both", 400),
+    step(4, 6, "thorough", 1800), step(6, 5, "thorough", 1800),
+    # 2. H02.inv (inductive)
+    inv(3, 16, 15, "both", 200),
+    inv(4, 32, 1, "both", 300), inv(4, 32, 2, "both", 300), inv(4, 32, 4, "both", 400), inv(4, 32, 8, "both", 300),
+    inv(4, 32768, 1, "thorough", 1800, ".real"), inv(4, 32768, 2, "thorough", 1800, ".real"),
+    inv(4, 32768, 4, "thorough", 1800, ".real"), inv(4, 32768, 8, "thorough", 1800, ".real"),
+    inv(5, 48, 1, "thorough", 1800), inv(5, 48, 2, "thorough", 1800), inv(5, 48, 4, "thorough", 1800), inv(5, 48, 8, "thorough", 1800),
+    dict(name="walk.n4", src="C02/inv.c", entry="harness_walk", defines=sc(4, 32) + ["WALK_HARNESS", "BITS_SPEC"],
+         rename_defs=dict(BITS, **{"lib/lh1_decoder.c": ["increment_for_code"]}), unwind=9, unwindset={"read_code.0": 4, "harness_walk.1": 4}, timeout=120,
+         units=["lib/lh1_decoder.c:read_code"], bounds="NUM_CODES=4: arbitrary invariant-satisfying tree, symbolic 2-byte bit string, any alignment, any end of data",
+         stubs=[BITSPEC, "increment_for_code: recording stub (its own harnesses: inv.*, threshold.*)"]),
+    dict(name="walk.n6", src="C02/inv.c", entry="harness_walk", defines=sc(6, 64) + ["WALK_HARNESS", "BITS_SPEC"],
+         rename_defs=dict(BITS, **{"lib/lh1_decoder.c": ["increment_for_code"]}), unwind=13, unwindset={"read_code.0": 6, "harness_walk.1": 6}, timeout=120,
+         units=["lib/lh1_decoder.c:read_code"], bounds="NUM_CODES=6: arbitrary invariant-satisfying tree, symbolic 2-byte bit string, any alignment, any end of data",
+         stubs=[BITSPEC, "increment_for_code: recording stub (its own harnesses: inv.*, threshold.*)"]),
+    # 3. H02.rebuild
+    dict(name="threshold.n4", src="C02/inv.c", entry="harness_threshold", defines=sc(4, 32), rename_defs=RT, unwind=9, unwindset=upd_unwind(4), timeout=200,
+         units=["lib/lh1_decoder.c:increment_for_code"],
+         bounds="NUM_CODES=4, limit 32: arbitrary invariant-satisfying state with ANY root count 4..32, arbitrary symbol: rebuild called iff root count == limit, before the increment",
+         stubs=["reconstruct_tree: recording stub"]),
+    rebuild(3, 16, 15, "both", 200), rebuild(4, 32, 1, "both", 450), rebuild(4, 32, 14, "both", 450),
+    rebuild(5, 48, 1, "thorough", 1800), rebuild(5, 48, 14, "thorough", 1800),
+    dict(name="rebuild_pre.n4", src="C02/rebuild.c", entry="harness_rebuild_pre", defines=sc(4, 32), unwind=9, timeout=120, tier="thorough",
+         bounds="NUM_CODES=4: invariant with root count == limit implies the weaker precondition (leaf entries only) that C09 lh1.rebuild uses"),
+    dict(name="rebuild_step.n3", src="C02/rebuild.c", entry="harness_rebuild_step", defines=sc(3, 16), unwind=7, unwindset=rb_unwind(3), timeout=1800, tier="thorough",
+         units=[TREE_UNITS + ",reconstruct_tree"],
+         bounds="NUM_CODES=3, limit 16: increment_for_code at root count == limit with the real reconstruct_tree inlined vs LZHUF update() incl. reconst() (composition cross-check)"),
+    # 4. H02.offset
     dict(name="offset", src="C02/offset.c", defines=["BITS_SPEC"], rename_defs=BITS, unwind=7,
          unwindset={"gen_tables.0": 25, "gen_tables.2": 65, "gen_tables.3": 65, "gen_tables.4": 257, "init_offset_table.0": 25, "fill_offset_range.0": 34, "bs_ref.0": 9},
-         timeout=300),
+         timeout=200, units=["lib/lh1_decoder.c:init_offset_table,fill_offset_range,read_offset"],
+         bounds="real constants: symbolic 3-byte bit string (all 256 peeked bytes x all low six bits), bit alignment 0..7, end of data anywhere",
+         stubs=[BITSPEC]),
+    # 5. H02.copy
     dict(name="copy.c12", src="C02/copy.c", defines=["MAXCOUNT=12"], rename_defs={"lib/lh1_decoder.c": ["read_code", "read_offset"]},
-         unwindset={"lha_lh1_read.0": 13}, flags=["--arrays-uf-always"], timeout=300),
+         unwindset={"lha_lh1_read.0": 13}, flags=["--arrays-uf-always"], timeout=200, units=["lib/lh1_decoder.c:lha_lh1_read,output_byte"],
+         bounds="real constants: arbitrary 4 KiB window and write position; one command: any literal, or any copy of length 3..12 at any distance 0..4095 (self-overlap, ring seam); failures of either read",
+         stubs=["read_code: arbitrary symbol 0..313 or failure (walk.*, inv.*)", "read_offset: arbitrary 12-bit distance or failure (offset)"]),
     dict(name="copy.c60", src="C02/copy.c", defines=["MAXCOUNT=60"], rename_defs={"lib/lh1_decoder.c": ["read_code", "read_offset"]},
-         unwindset={"lha_lh1_read.0": 61}, flags=["--arrays-uf-always"], timeout=900, tier="thorough"),
+         unwindset={"lha_lh1_read.0": 61}, flags=["--arrays-uf-always"], timeout=1800, tier="thorough", mem_gb=6, units=["lib/lh1_decoder.c:lha_lh1_read,output_byte"],
+         bounds="as copy.c12 with all copy lengths 3..60",
+         stubs=["read_code: arbitrary symbol 0..313 or failure (walk.*, inv.*)", "read_offset: arbitrary 12-bit distance or failure (offset)"]),
     dict(name="copy.init", src="C02/copy.c", entry="harness_init", rename_defs={"lib/lh1_decoder.c": ["read_code", "read_offset"]},
-         unwindset={"memset.0": 4098}, timeout=120),
-    dict(name="params", src="C02/params.c", unwind=630, unwindset={"memset.0": 4098, "lha_decoder_for_name.0": 20, "strcmp.0": 8, "fill_offset_range.0": 34}, flags=["--max-field-sensitivity-array-size", "700"], timeout=300),
+         unwindset={"memset.0": 4098}, timeout=120, units=["lib/lh1_decoder.c:init_ring_buffer"], bounds="all 4096 window positions (symbolic index)"),
+    # 6. H02.params
+    dict(name="params", src="C02/params.c", unwind=7, unwindset={"lha_decoder_for_name.0": 20, "strcmp.0": 8}, timeout=120,
+         units=["lib/lh1_decoder.c (constants, lha_lh1_decoder)", "lib/lha_decoder.c:lha_decoder_for_name"], bounds="concrete: constants of the unscaled build"),
+    dict(name="init.real", src="C02/params.c", defines=["INIT_REAL"], unwind=630,
+         unwindset={"memset.0": 4098, "lha_decoder_for_name.0": 20, "strcmp.0": 8, "fill_offset_range.0": 34},
+         timeout=900, tier="thorough", units=["lib/lh1_decoder.c:lha_lh1_init,init_groups,init_tree"],
+         bounds="concrete: real-size (314 symbols) initial tree equals LZHUF StartHuff node-for-node"),
 ]
